@@ -209,12 +209,12 @@ func (c *converter) Continue() error {
 }
 
 func (c *converter) Print(values []string) error {
-	c.addLine(fmt.Sprintf("echo \"%s\"", strings.Join(values, " ")))
+	c.addLine(fmt.Sprintf("printf '%%s\\n' \"%s\"", strings.Join(values, " ")))
 	return nil
 }
 
 func (c *converter) Panic(value string) error {
-	c.addLine(fmt.Sprintf("echo \"%s\"", value))
+	c.addLine(fmt.Sprintf("printf '%%s\\n' \"%s\"", value))
 	c.addLine("exit 1")
 	return nil
 }
@@ -223,7 +223,7 @@ func (c *converter) WriteFile(path string, content string, append string) error 
 	helper := c.nextHelperVar()
 
 	c.VarAssignment(helper, fmt.Sprintf(`$(if [ "%s" -eq "%s" ]; then echo ">>"; else echo ">"; fi)`, append, transpiler.BoolToString(true)), false)
-	c.addLine(fmt.Sprintf(`eval "echo \"%s\" %s \"%s\""`, c.deferExpansion(content), c.varEvaluationString(helper, false), c.deferExpansion(path)))
+	c.addLine(fmt.Sprintf(`eval "printf '%%s\\n' \"%s\" %s \"%s\""`, c.deferExpansion(content), c.varEvaluationString(helper, false), c.deferExpansion(path)))
 	return nil
 }
 
@@ -585,7 +585,7 @@ func (c *converter) deferExpansion(value string) string {
 }
 
 func (c *converter) sliceEvaluationString(name string, index string) string {
-	return fmt.Sprintf(`$(eval "echo \"\${%s[%s]}\"")`, name, index)
+	return fmt.Sprintf(`$(eval "printf '%%s' \"\${%s[%s]}\"")`, name, index)
 }
 
 func (c *converter) sliceLenString(name string) string {
